@@ -15,6 +15,7 @@ import (
 	"context"
 	"fmt"
 	"net"
+	"os"
 	"runtime"
 	"strings"
 	"sync"
@@ -603,7 +604,27 @@ func runCase(rec *vr.Rec, c ccase) {
 			if c.Peer == "noread" {
 				sig = fmt.Sprintf("C09/stream-peer-never-reads/%s/%s", c.Action, c.Op)
 			}
-			rec.Violation(sig, fmt.Sprintf("%s at point %s against a %s peer: the call had not returned %v after the %s", c.Op, c.Point, c.Peer, watchdog, c.Action), c)
+			noticed := false
+			select {
+			case <-e.cc.Done():
+				noticed = true
+			default:
+			}
+			if os.Getenv("VERIF_DBG") != "" {
+				buf := make([]byte, 1<<22)
+				buf = buf[:runtime.Stack(buf, true)]
+				_ = os.WriteFile(fmt.Sprintf("/tmp/c09dump.%d.%s.%s.%s.txt", os.Getpid(), c.Transport, c.Op, c.Action), buf, 0o644)
+			}
+			if c.Transport == "dtls" && c.Action == "peer-conn-close" && !noticed {
+				// On a datagram transport the peer's close exists for this endpoint only if the close_notify record
+				// arrives and is accepted; here it did not (the connection's own done signal is not set either, the read
+				// loop is still waiting for records). Nothing has been "closed by either side" as far as this endpoint
+				// can know: no verdict. (Seen only with many copies of the check running at once.)
+				rec.Inconclusive("dtls: the peer's close_notify never reached the client; the blocked call is not judged")
+				rec.Count("dtls_peer_close_not_noticed_by_client", 1)
+			} else {
+				rec.Violation(sig, fmt.Sprintf("%s at point %s against a %s peer: the call had not returned %v after the %s (the connection's done signal is set: %v)", c.Op, c.Point, c.Peer, watchdog, c.Action, noticed), c)
+			}
 		} else {
 			rec.Inconclusive("watchdog fired but no goroutine is parked in the library")
 		}
